@@ -78,6 +78,26 @@ fn run_fsx(prop: &'static str, tier: Tier, level: &'static str) -> i32 {
     let seed = env_seed();
     let mut out = fsx_pass(prop, tier, seed, env_cases(fsx::quick_cases(prop, tier)));
     let mut engine = "fsx";
+    if prop == "C01" && out.violation.is_none() {
+        // files of 2-4 GiB: 64-bit seek arithmetic and the 4 GiB - 1 size limit
+        use sdmmc_verif::engines::bigfile;
+        let n = env_cases(0);
+        let cases = if n > 0 { n / 50 + 1 } else { tier.pick(400, 12_000) };
+        let mut pre = Acc::default();
+        let corpus_fail = runner::replay_corpus::<bigfile::BigCase>("C01-bigfile", &mut pre, &|c, a| bigfile::run_case(c, a, false));
+        let o = if let Some(v) = corpus_fail {
+            Outcome { acc: Acc::default(), violation: Some(v), wall_s: 0.0 }
+        } else {
+            runner::run_parallel("C01-bigfile", seed, cases, bigfile::strategy, |c: &bigfile::BigCase, a| bigfile::run_case(c, a, false))
+        };
+        out.wall_s += o.wall_s;
+        out.acc.merge(o.acc);
+        out.acc.merge(pre);
+        if o.violation.is_some() {
+            out.violation = o.violation;
+            engine = "bigfile";
+        }
+    }
     if prop == "C04" && out.violation.is_none() {
         // the same classifier on histories with one failing device call
         use sdmmc_verif::engines::faults;
@@ -440,6 +460,10 @@ fn replay(path: &str) -> i32 {
         "crash" => {
             let case: Case = serde_json::from_value(rf.case).expect("case does not parse");
             sdmmc_verif::engines::crash::run_case(&sdmmc_verif::engines::crash::cfg_for(prop), &case, &mut acc, &known, true, true)
+        }
+        "bigfile" => {
+            let case: sdmmc_verif::engines::bigfile::BigCase = serde_json::from_value(rf.case).expect("case does not parse");
+            sdmmc_verif::engines::bigfile::run_case(&case, &mut acc, true)
         }
         "c05-fill" => {
             let case: sdmmc_verif::engines::c05::FillCase = serde_json::from_value(rf.case).expect("case does not parse");
